@@ -42,7 +42,7 @@ def run_case(case):
     nx, ny, dx, dy = St["nx"], St["ny"], St["dx"], St["dy"]
     nz = len(St["z"])
     prec = "double" if rng.random() < 0.75 else "single"
-    tol = solve.tol(prec, St["G"])
+    tol = solve.tol(prec, St["G"], cr=St["cr"])
     levels, lkind = solve.pick_levels(rng, nz, str(rng.choice(["top", "scalar", "few"])))
     nl = solve.nlev(levels)
     desc = gen.describe(St)
@@ -146,7 +146,7 @@ def run_case(case):
         _, Rch, Rfh = solve.solve(Sh, unit2, lv2, precision=prec)
         J2, I2 = 2 * jt - np.arange(ny2), 2 * it - np.arange(nx2)
         okJ2, okI2 = (J2 >= 0) & (J2 < ny2), (I2 >= 0) & (I2 < nx2)
-        tolr = solve.tol(prec, Sh["G"])
+        tolr = solve.tol(prec, Sh["G"], cr=Sh["cr"])
         for nm, A, B in (("flx", Fh, Rfh), ("conc", Gh, Rch)):
             got = A[np.ix_(np.where(okJ2)[0], np.where(okI2)[0])]
             exp = B[np.ix_(J2[okJ2], I2[okI2])]
